@@ -348,8 +348,10 @@ func TestVerif_C11_GatherEvents(t *testing.T) {
 	rapid.Check(t, func(rt *rapid.T) {
 		cfg := c09Config{
 			Addrs: []string{"10.0.0.1", "10.0.1.1"}[:rapid.IntRange(1, 2).Draw(rt, "nAddrs")],
-			Types: rapid.SampledFrom([][]CandidateType{{CandidateTypeHost}, {CandidateTypeHost, CandidateTypeServerReflexive}}).Draw(rt, "types"),
-			StunMode: rapid.SampledFrom([]string{"now", "later", "never"}).Draw(rt, "stun"), TurnProto: "udp", TurnMode: "ok",
+			Types: rapid.SampledFrom([][]CandidateType{{CandidateTypeHost}, {CandidateTypeHost, CandidateTypeServerReflexive}, {CandidateTypeHost, CandidateTypeRelay}, {CandidateTypeRelay}}).Draw(rt, "types"),
+			StunMode: rapid.SampledFrom([]string{"now", "later", "never"}).Draw(rt, "stun"), TurnProto: "udp",
+			TurnMode:   rapid.SampledFrom([]string{"ok", "allocate-blocks"}).Draw(rt, "turn"),
+			BadTurnURL: rapid.Bool().Draw(rt, "badTurnURL"),
 		}
 		w, err := newC09World(cfg)
 		if err != nil {
@@ -427,6 +429,8 @@ func TestVerif_C11_GatherEvents(t *testing.T) {
 				rt.Fatalf("harness: restart: %v", err)
 			}
 		}
+		// the last cycle runs to completion; withheld STUN/TURN exchanges finish after a drawn delay
+		c11Jitter(rapid.IntRange(0, 80).Draw(rt, "releaseDelay"))
 		w.releaseEverything()
 		if !w.waitCycles() {
 			st.Inconclusive()
